@@ -144,6 +144,21 @@ class ScriptedScheduler(BaseScheduler):
             self._next += 1
             pools = list(worker_pools.worker_pools)
             for d in inv["decs"]:
+                if d["do"] in ("load", "evict"):
+                    prof = next((p for p in workload.work_profiles if p.name.split("_")[0] == d["profile"] or p.name == d["profile"]), None)
+                    if prof is None:
+                        continue
+                    pool = pools[d.get("pool", 1) - 1]
+                    wid = pool.workers[d["worker"] - 1].id if d.get("worker") else None
+                    when = EventTime(max(d.get("time", now), now + self.runtime.to(EventTime.Unit.US).time), EventTime.Unit.US)
+                    if d["do"] == "load":
+                        out.append(Placement.create_load_profile_placement(
+                            work_profile=prof, placement_time=when, worker_pool_id=pool.id, worker_id=wid,
+                            loading_strategy=list(prof.loading_strategies)[0]))
+                    else:
+                        out.append(Placement.create_evict_profile_placement(
+                            work_profile=prof, placement_time=when, worker_pool_id=pool.id, worker_id=wid))
+                    continue
                 name, graph = d["task"].split("@", 1)
                 tg = workload.get_task_graph(graph)
                 t = tg.get_task(name) if tg is not None else None
